@@ -12,6 +12,9 @@ open SwimVerif.Generated.Store
 
 abbrev Bytes := List Nat
 
+/-- `2^64`: lane ids are `u64`. -/
+def u64 : Nat := 18446744073709551616
+
 /-- Lexicographic `<` on byte strings: RocksDB's `BytewiseComparator` and `Ord for Vec<u8>`. -/
 def blt : Bytes → Bytes → Bool
   | [], [] => false
